@@ -1,17 +1,440 @@
-/- C18 — statements under construction -/
-import AgpTpf.Model.Lookup
+/-
+  C18 — Overlap results keep span and content consistent under every edit sequence.
+
+  Python: `OverlapResult` (src/tola/assembly/overlap_result.py), obtained from
+  `IndexedAssembly.find_overlaps` (indexed_assembly.py).  Model: `AgpTpf/Model/Lookup.lean`.
+
+  The invariant `Inv src o` (defined in `AgpTpf/Proofs/C18.lean`, restated in full by `inv_iff` and in index form by
+  `inv_index_form` below) has four parts:
+    (1) `span`          : `o.stop - o.start + 1 = rowsLength o.rows`
+    (2) `noTerminalGap` : `o.rows = []`, or the first and the last row are fragments
+    (3)+(4) `content`   : `Content src o` — the rows are a contiguous run of the source scaffold `src`; the inner rows
+                          are the source rows themselves; only the terminal fragments may have been shortened, and
+                          only at their outer end (both ends when a single row is left); `o.start` / `o.stop` are the
+                          scaffold coordinates, computed from `src`, of what is left (strand-aware, `Short`)
+    (+) `distinct`      : the Fragment objects in `o.rows` are pairwise distinct objects (distinct `oid`s).
+
+  Why (+) is there: `trim_fragment` finds its row by object identity (`rows[0] is trim`, `rows[-1] is trim`).  If the
+  SAME Fragment object is both the first and the last row of a result with ≥ 2 rows, `trim_fragment(rows[0])` moves
+  `start`, leaves row 0 untouched and cuts the last row at both ends: (3)/(4) are then false (see `dup_object_breaks_content`
+  below; reproduced on the real code: rows [F,G,F], F = a:1-10(+), G = b:1-5, bait 3..23 ⇒ start 3, end 23, rows
+  [a:1-10, b:1-5, a:3-8]).  So the property needs "a scaffold does not contain the same Fragment object twice", which is
+  hypothesis `(ids src).Nodup` of `inv_lookup`, and new fragments must get fresh object ids (as `Fragment(...)` does).
+-/
+import AgpTpf.Proofs.C18
 namespace AgpTpf.C18
-open AgpTpf
-theorem popLeadingGaps_span (rows : List Row) (st : Int) :
-    (OverlapResult.popLeadingGaps rows st).2 + rowsLength (OverlapResult.popLeadingGaps rows st).1 = st + rowsLength rows := by
-  induction rows generalizing st with
-  | nil => simp [OverlapResult.popLeadingGaps]
-  | cons r rs ih =>
-    cases r with
-    | frag f => simp [OverlapResult.popLeadingGaps]
-    | gap g =>
-      simp only [OverlapResult.popLeadingGaps]
-      rw [ih]
-      simp [rowsLength, sumInts, Row.length]
-      omega
+open AgpTpf OverlapResult
+
+/-! ## The invariant, spelled out -/
+
+/-- `Short r s dl dr`: row `r` is the source fragment `s` with `dl` scaffold positions removed at its scaffold-left
+    side and `dr` at its scaffold-right side; plus strand: left = `fragment.start`; any other strand (−1 and, as the code
+    treats it, 0): left = `fragment.end`.  Name and strand are kept. -/
+theorem short_iff (r s : Row) (dl dr : Int) :
+    Short r s dl dr ↔
+      ∃ f g, r = .frag f ∧ s = .frag g ∧ f.name = g.name ∧ f.strand = g.strand ∧
+        (if g.strand = 1 then f.start = g.start + dl ∧ f.stop = g.stop - dr
+         else f.start = g.start + dr ∧ f.stop = g.stop - dl) := Iff.rfl
+
+/-- a shortened row covers a sub-interval of the source fragment's interval (for `dl, dr ≥ 0`) and is shorter by `dl + dr` -/
+theorem short_contained {r s : Row} {dl dr : Int} (h : Short r s dl dr) (h0 : 0 ≤ dl) (h1 : 0 ≤ dr) :
+    ∃ f g, r = .frag f ∧ s = .frag g ∧ g.start ≤ f.start ∧ f.stop ≤ g.stop ∧ r.length = s.length - dl - dr := by
+  have hl := h.length
+  obtain ⟨f, g, rfl, rfl, _, _, hc⟩ := h
+  refine ⟨f, g, rfl, rfl, ?_, ?_, hl⟩ <;> (split at hc <;> omega)
+
+/-- the content part of the invariant in full -/
+theorem content_iff (src : List Row) (o : OverlapResult) :
+    Content src o ↔
+      (o.rows = [] ∧ o.stop = o.start - 1) ∨
+      (∃ (A B : List Row) (s r : Row) (dl dr : Int),
+        src = A ++ s :: B ∧ o.rows = [r] ∧ Short r s dl dr ∧ 0 ≤ dl ∧ 0 ≤ dr ∧
+        o.start = 1 + rowsLength A + dl ∧ o.stop = rowsLength A + s.length - dr) ∨
+      (∃ (A B mid : List Row) (s0 s1 r0 r1 : Row) (dl dr : Int),
+        src = A ++ s0 :: mid ++ s1 :: B ∧ o.rows = r0 :: mid ++ [r1] ∧ Short r0 s0 dl 0 ∧ Short r1 s1 0 dr ∧
+        0 ≤ dl ∧ 0 ≤ dr ∧
+        o.start = 1 + rowsLength A + dl ∧
+        o.stop = rowsLength A + s0.length + rowsLength mid + s1.length - dr) := by
+  constructor
+  · intro h
+    cases h with
+    | empty h1 h2 => exact Or.inl ⟨h1, h2⟩
+    | one A B s r dl dr a b c d e f g => exact Or.inr (Or.inl ⟨A, B, s, r, dl, dr, a, b, c, d, e, f, g⟩)
+    | many A B mid s0 s1 r0 r1 dl dr a b c d e f g h =>
+      exact Or.inr (Or.inr ⟨A, B, mid, s0, s1, r0, r1, dl, dr, a, b, c, d, e, f, g, h⟩)
+  · rintro (⟨h1, h2⟩ | ⟨A, B, s, r, dl, dr, a, b, c, d, e, f, g⟩ | ⟨A, B, mid, s0, s1, r0, r1, dl, dr, a, b, c, d, e, f, g, h⟩)
+    · exact Content.empty h1 h2
+    · exact Content.one A B s r dl dr a b c d e f g
+    · exact Content.many A B mid s0 s1 r0 r1 dl dr a b c d e f g h
+
+theorem inv_iff (src : List Row) (o : OverlapResult) :
+    Inv src o ↔
+      o.stop - o.start + 1 = rowsLength o.rows ∧
+      (o.rows = [] ∨ ((∃ f t, o.rows = .frag f :: t) ∧ (∃ f t, o.rows = t ++ [.frag f]))) ∧
+      Content src o ∧
+      ((fragmentsOf o.rows).map (·.oid)).Nodup :=
+  ⟨fun h => ⟨h.span, h.noTerminalGap, h.content, h.distinct⟩, fun ⟨a, b, c, d⟩ => ⟨a, b, c, d⟩⟩
+
+/-- (1) and (2) are consequences of (3)+(4): -/
+theorem content_span {src o} (h : Content src o) : o.stop - o.start + 1 = rowsLength o.rows := h.span
+theorem content_noTerminalGap {src o} (h : Content src o) : NoTerminalGap o.rows := h.noTerminalGap
+
+/-- Index form of (3)+(4): there are `i`, `n` with `n` rows left; every non-terminal row `k` is `src[i+k]`; the first /
+    last row is `src[i]` / `src[i+n-1]` shortened only at its outer end (at both ends when `n = 1`); `start` / `stop` are
+    prefix sums of `src` corrected by the shortening. -/
+theorem content_index_form {src o} (h : Content src o) (hne : o.rows ≠ []) :
+    ∃ (i n : Nat) (dl dr : Int),
+      o.rows.length = n ∧ 0 < n ∧ i + n ≤ src.length ∧ 0 ≤ dl ∧ 0 ≤ dr ∧
+      (∀ k, 0 < k → k + 1 < n → o.rows[k]? = src[i + k]?) ∧
+      (∃ r s, o.rows[0]? = some r ∧ src[i]? = some s ∧ Short r s dl (if n = 1 then dr else 0)) ∧
+      (∃ r s, o.rows[n - 1]? = some r ∧ src[i + n - 1]? = some s ∧ Short r s (if n = 1 then dl else 0) dr) ∧
+      o.start = 1 + rowsLength (src.take i) + dl ∧
+      o.stop = rowsLength (src.take (i + n)) - dr := by
+  cases h with
+  | empty h1 _ => exact absurd h1 hne
+  | one A B s r dl dr hs hr hsh h0 h1 hst hen =>
+    refine ⟨A.length, 1, dl, dr, by simp [hr], by omega, by simp [hs], h0, h1, ?_, ⟨r, s, by simp [hr], by simp [hs], by simpa using hsh⟩,
+      ⟨r, s, by simp [hr], by simp [hs], by simpa using hsh⟩, ?_, ?_⟩
+    · intro k hk hk'; omega
+    · rw [hs]; simpa using hst
+    · have : src = (A ++ [s]) ++ B := by simp [hs]
+      rw [this, List.take_left' (by simp)]
+      simp only [rowsLength_append, rowsLength_cons, rowsLength_nil]; omega
+  | many A B mid s0 s1 r0 r1 dl dr hs hr hs0 hs1 h0 h1 hst hen =>
+    have hs' : src = A ++ (s0 :: (mid ++ s1 :: B)) := by simp [hs]
+    have hr' : o.rows = r0 :: (mid ++ [r1]) := by simp [hr]
+    refine ⟨A.length, mid.length + 2, dl, dr, by simp [hr], by omega, by simp [hs], h0, h1, ?_,
+      ⟨r0, s0, by simp [hr], by simp [hs'], by simpa using hs0⟩, ⟨r1, s1, ?_, ?_, by simpa using hs1⟩, ?_, ?_⟩
+    · intro k hk hk'
+      obtain ⟨k, rfl⟩ : ∃ k', k = k' + 1 := ⟨k - 1, by omega⟩
+      have hk2 : k < mid.length := by omega
+      rw [hr', hs', List.getElem?_append_right (by omega)]
+      have : A.length + (k + 1) - A.length = k + 1 := by omega
+      rw [this, List.getElem?_cons_succ, List.getElem?_cons_succ, List.getElem?_append_left hk2,
+        List.getElem?_append_left hk2]
+    · rw [hr']; simp
+    · rw [hs', List.getElem?_append_right (by omega)]
+      have : A.length + (mid.length + 2) - 1 - A.length = mid.length + 1 := by omega
+      rw [this]; simp
+    · rw [hs']; simpa using hst
+    · have : src = (A ++ s0 :: mid ++ [s1]) ++ B := by simp [hs]
+      rw [this, List.take_left' (by simp)]
+      simp only [rowsLength_append, rowsLength_cons, rowsLength_nil]; omega
+
+theorem inv_index_form {src o} (h : Inv src o) (hne : o.rows ≠ []) :
+    ∃ (i n : Nat) (dl dr : Int),
+      o.rows.length = n ∧ 0 < n ∧ i + n ≤ src.length ∧ 0 ≤ dl ∧ 0 ≤ dr ∧
+      (∀ k, 0 < k → k + 1 < n → o.rows[k]? = src[i + k]?) ∧
+      (∃ r s, o.rows[0]? = some r ∧ src[i]? = some s ∧ Short r s dl (if n = 1 then dr else 0)) ∧
+      (∃ r s, o.rows[n - 1]? = some r ∧ src[i + n - 1]? = some s ∧ Short r s (if n = 1 then dl else 0) dr) ∧
+      o.start = 1 + rowsLength (src.take i) + dl ∧
+      o.stop = rowsLength (src.take (i + n)) - dr :=
+  content_index_form h.content hne
+
+/-! ## Established by the lookup -/
+
+/-- Every result of `find_overlaps` satisfies the invariant — for every scaffold and every bait, with no condition on
+    lengths or coordinates; only: no Fragment object occurs twice in the scaffold. -/
+theorem inv_lookup {src : List Row} {bait : Fragment} {o : OverlapResult}
+    (hd : (ids src).Nodup) (h : findOverlaps src bait = .ok (some o)) : Inv src o :=
+  inv_lookup' hd h
+
+/-- a fresh lookup result has unshortened rows: it is exactly a slice of the source, `start`/`stop` are prefix sums -/
+theorem lookup_slice {src : List Row} {bait : Fragment} {o : OverlapResult}
+    (h : findOverlaps src bait = .ok (some o)) :
+    ∃ i j : Nat, i ≤ j ∧ j < src.length ∧ o.rows = (src.drop i).take (j + 1 - i) ∧
+      o.start = 1 + rowsLength (src.take i) ∧ o.stop = rowsLength (src.take (j + 1)) ∧ o.bait = bait := by
+  obtain ⟨i, j, a, b, _, _, c, d, e, f⟩ := findOverlaps_spec h
+  exact ⟨i, j, a, b, c, d, e, f⟩
+
+/-! ## Preserved by every operation -/
+
+/-- `needsId op`: the operation creates a new Fragment object (`trim_fragment`). -/
+theorem needsId_iff (op : OvOp) : needsId op = true ↔ ∃ ks ke, op = .trimFirst ks ke ∨ op = .trimLast ks ke := by
+  cases op <;> simp [needsId]
+
+/-- One accepted operation preserves the invariant.  For the two `trim_fragment` operations the object id of the
+    Fragment they create must be fresh with respect to the rows of the result. -/
+theorem inv_step {src : List Row} {o o' : OverlapResult} {op : OvOp} {oid : Nat} (hI : Inv src o)
+    (hfresh : needsId op = true → oid ∉ ids o.rows) (h : applyOp o op oid = .ok o') : Inv src o' :=
+  inv_step' hI hfresh h
+
+/-- the three operations that never create objects need no side condition -/
+theorem inv_step_discardStart {src o o'} (hI : Inv src o) (h : discardStart o = .ok o') : Inv src o' :=
+  inv_discardStart hI h
+theorem inv_step_discardEnd {src o o'} (hI : Inv src o) (h : discardEnd o = .ok o') : Inv src o' :=
+  inv_discardEnd hI h
+theorem inv_step_trimLarge {src o o'} {e : Int} (hI : Inv src o) (h : trimLargeOverhangs o e = .ok o') : Inv src o' :=
+  inv_trimLarge hI h
+/-- `trim_fragment(trim, …)` called directly with the first or the last row -/
+theorem inv_step_trimFragment_first {src o o'} {f new : Fragment} {t : List Row} {ks ke : Bool} {oid : Nat}
+    (hI : Inv src o) (hr : o.rows = .frag f :: t) (hfresh : oid ∉ ids o.rows)
+    (h : trimFragment o f ks ke oid = .ok (o', new)) : Inv src o' :=
+  inv_trimFragment_first hI hr hfresh h
+theorem inv_step_trimFragment_last {src o o'} {f new : Fragment} {t : List Row} {ks ke : Bool} {oid : Nat}
+    (hI : Inv src o) (hr : o.rows = t ++ [.frag f]) (hfresh : oid ∉ ids o.rows)
+    (h : trimFragment o f ks ke oid = .ok (o', new)) : Inv src o' :=
+  inv_trimFragment_last hI hr hfresh h
+
+/-- `runOps o ops`: apply the operations in order (each paired with the id of the object it may create); the first
+    rejected operation ends the run. -/
+theorem runOps_nil (o : OverlapResult) : runOps o [] = .ok o := rfl
+theorem runOps_cons (o : OverlapResult) (op : OvOp) (oid : Nat) (rest : List (OvOp × Nat)) :
+    runOps o ((op, oid) :: rest) = (applyOp o op oid >>= fun o1 => runOps o1 rest) := rfl
+
+/-- Any finite sequence of accepted operations preserves the invariant (new objects get pairwise distinct ids that
+    are not ids of rows of the starting result). -/
+theorem inv_ops {src : List Row} (ops : List (OvOp × Nat)) {o o' : OverlapResult} (hI : Inv src o)
+    (hnd : (ops.map (·.2)).Nodup) (hfresh : ∀ x ∈ ops.map (·.2), x ∉ ids o.rows)
+    (h : runOps o ops = .ok o') : Inv src o' :=
+  inv_ops' ops hI hnd hfresh h
+
+/-- lookup followed by any accepted edit sequence -/
+theorem inv_lookup_ops {src : List Row} {bait : Fragment} (ops : List (OvOp × Nat)) {o o' : OverlapResult}
+    (hd : (ids src).Nodup) (hl : findOverlaps src bait = .ok (some o))
+    (hnd : (ops.map (·.2)).Nodup) (hfresh : ∀ x ∈ ops.map (·.2), x ∉ ids src)
+    (h : runOps o ops = .ok o') :
+    Inv src o' ∧ o'.stop - o'.start + 1 = rowsLength o'.rows ∧ NoTerminalGap o'.rows := by
+  have hI := inv_lookup hd hl
+  have hsub : ∀ x ∈ ids o.rows, x ∈ ids src := by
+    obtain ⟨i, j, _, _, hr, _⟩ := lookup_slice hl
+    intro x hx
+    have hs : src = src.take i ++ o.rows ++ src.drop (i + (j + 1 - i)) := by
+      rw [hr, List.append_assoc, ← List.drop_drop, List.take_append_drop, List.take_append_drop]
+    rw [hs, ids_append, ids_append]
+    simp [hx]
+  have := inv_ops ops hI hnd (fun x hx hx' => hfresh x hx (hsub x hx')) h
+  exact ⟨this, this.span, this.noTerminalGap⟩
+
+/-! ## Derived figures = plain interval arithmetic -/
+
+theorem startOverhang_eq (o : OverlapResult) : o.startOverhang = o.bait.start - o.start := rfl
+theorem endOverhang_eq (o : OverlapResult) : o.endOverhang = o.stop - o.bait.stop := rfl
+theorem length_eq (o : OverlapResult) : o.length = o.stop - o.start + 1 := rfl
+
+/-- `start_row_bait_overlap` = size of `[bait.start, bait.stop] ∩ [start, start + len(first row) − 1]` -/
+theorem startRowBaitOverlap_eq {o : OverlapResult} {n : Int} (h : startRowBaitOverlap o = .ok n) :
+    ∃ r t, o.rows = r :: t ∧
+      n = max 0 (min o.bait.stop (o.start + r.length - 1) - max o.bait.start o.start + 1) := by
+  unfold startRowBaitOverlap at h
+  cases hp : pyGet o.rows 0 with
+  | error e => rw [hp] at h; cases h
+  | ok r =>
+    rw [hp] at h
+    obtain ⟨t, ht⟩ := pyGet_zero_ok hp
+    simp only [bind, Except.bind, pure, Except.pure, Except.ok.injEq] at h
+    refine ⟨r, t, ht, ?_⟩
+    subst h
+    split <;> omega
+
+theorem startRowBaitOverlap_ok {o : OverlapResult} {r : Row} {t : List Row} (hr : o.rows = r :: t) :
+    startRowBaitOverlap o =
+      .ok (max 0 (min o.bait.stop (o.start + r.length - 1) - max o.bait.start o.start + 1)) := by
+  unfold startRowBaitOverlap
+  rw [hr, pyGet_zero_cons]
+  simp only [bind, Except.bind, pure, Except.pure, Except.ok.injEq]
+  split <;> omega
+
+/-- `end_row_bait_overlap` = size of `[bait.start, bait.stop] ∩ [stop − len(last row) + 1, stop]` -/
+theorem endRowBaitOverlap_eq {o : OverlapResult} {n : Int} (h : endRowBaitOverlap o = .ok n) :
+    ∃ r t, o.rows = t ++ [r] ∧
+      n = max 0 (min o.bait.stop o.stop - max o.bait.start (o.stop - r.length + 1) + 1) := by
+  unfold endRowBaitOverlap at h
+  cases hp : pyGet o.rows (-1) with
+  | error e => rw [hp] at h; cases h
+  | ok r =>
+    rw [hp] at h
+    obtain ⟨t, ht⟩ := pyGet_neg_one_ok hp
+    simp only [bind, Except.bind, pure, Except.pure, Except.ok.injEq] at h
+    refine ⟨r, t, ht, ?_⟩
+    subst h
+    split <;> omega
+
+theorem endRowBaitOverlap_ok {o : OverlapResult} {r : Row} {t : List Row} (hr : o.rows = t ++ [r]) :
+    endRowBaitOverlap o =
+      .ok (max 0 (min o.bait.stop o.stop - max o.bait.start (o.stop - r.length + 1) + 1)) := by
+  unfold endRowBaitOverlap
+  rw [hr, pyGet_neg_one_concat]
+  simp only [bind, Except.bind, pure, Except.pure, Except.ok.injEq]
+  split <;> omega
+
+theorem popLeadingGaps_snd (l : List Row) (st : Int) : (popLeadingGaps l st).2 = st + leadingGapLength l := by
+  fun_induction popLeadingGaps l st with
+  | case1 g r st ih => rw [ih]; simp only [leadingGapLength]; omega
+  | case2 rows st h =>
+    cases rows with
+    | nil => simp [leadingGapLength]
+    | cons r t =>
+      cases r with
+      | frag f => simp [leadingGapLength]
+      | gap g => exact absurd rfl (h g t)
+
+/-- `overhang_if_start_removed()` is the start overhang that `discard_start()` would produce -/
+theorem overhangIfStartRemoved_eq {o : OverlapResult} {x : Int} (h : overhangIfStartRemoved o = .ok x) :
+    ∃ o', discardStart o = .ok o' ∧ x = o'.startOverhang := by
+  unfold overhangIfStartRemoved at h
+  unfold discardStart
+  split at h
+  · cases h
+  · rename_i d r hr
+    simp only [Except.ok.injEq] at h
+    refine ⟨_, rfl, ?_⟩
+    simp only [startOverhang, popLeadingGaps_snd]
+    omega
+
+/-- `overhang_if_end_removed()` is the end overhang that `discard_end()` would produce -/
+theorem overhangIfEndRemoved_eq {o : OverlapResult} {x : Int} (h : overhangIfEndRemoved o = .ok x) :
+    ∃ o', discardEnd o = .ok o' ∧ x = o'.endOverhang := by
+  unfold overhangIfEndRemoved at h
+  unfold discardEnd
+  split at h
+  · cases h
+  · rename_i d r hr
+    simp only [Except.ok.injEq] at h
+    refine ⟨_, rfl, ?_⟩
+    simp only [endOverhang, popLeadingGaps_snd]
+    omega
+
+/-! ## Rejections -/
+
+theorem discardStart_empty {o : OverlapResult} (h : o.rows = []) : discardStart o = .error .index := by
+  unfold discardStart; rw [h]
+theorem discardEnd_empty {o : OverlapResult} (h : o.rows = []) : discardEnd o = .error .index := by
+  unfold discardEnd; rw [h]; rfl
+/-- the discards are rejected ONLY on an empty result -/
+theorem discardStart_ok_iff (o : OverlapResult) : (∃ o', discardStart o = .ok o') ↔ o.rows ≠ [] := by
+  constructor
+  · rintro ⟨o', h⟩ he; rw [discardStart_empty he] at h; cases h
+  · intro h
+    unfold discardStart
+    split
+    · rename_i he; exact absurd he h
+    · exact ⟨_, rfl⟩
+theorem discardEnd_ok_iff (o : OverlapResult) : (∃ o', discardEnd o = .ok o') ↔ o.rows ≠ [] := by
+  constructor
+  · rintro ⟨o', h⟩ he; rw [discardEnd_empty he] at h; cases h
+  · intro h
+    unfold discardEnd
+    split
+    · rename_i he; exact absurd (by simpa using he) h
+    · exact ⟨_, rfl⟩
+
+/-- `trim_fragment` of a fragment that is neither the first nor the last row: ValueError -/
+theorem trimFragment_reject {o : OverlapResult} {f : Fragment} {r0 r1 : Row} {t t' : List Row} (ks ke : Bool) (oid : Nat)
+    (h0 : o.rows = r0 :: t) (h1 : o.rows = t' ++ [r1]) (n0 : rowIs r0 f = false) (n1 : rowIs r1 f = false) :
+    trimFragment o f ks ke oid = .error .value := by
+  have hs := firstIs_cons o f r0 t h0
+  have he : ∀ x, lastIs { o with start := x } f = .ok false := fun x => by
+    rw [← n1]; exact lastIs_concat _ f r1 t' h1
+  rw [n0] at hs
+  unfold trimFragment
+  simp [hs, he, bind, Except.bind]
+/-- … and on an empty result: IndexError -/
+theorem trimFragment_empty {o : OverlapResult} (f : Fragment) (ks ke : Bool) (oid : Nat) (h : o.rows = []) :
+    trimFragment o f ks ke oid = .error .index := by
+  unfold trimFragment firstIs
+  rw [h, pyGet_nil]; rfl
+
+/-! ## Non-vacuity: a concrete scaffold, baits, operation sequences (all checked by evaluation) -/
+
+def fr (oid : Nat) (n : String) (s e st : Int) : Row :=
+  .frag { oid := oid, name := n.toList, start := s, stop := e, strand := st }
+def gp (n : Int) : Row := .gap ⟨n, "scaffold".toList⟩
+def mkBait (s e : Int) : Fragment :=
+  { name := "s".toList, start := s, stop := e, strand := 1, tags := ["Painted".toList, "Hap1".toList] }
+def cutTags : List Str := [Gen.cutTag, "Hap1".toList]
+
+/-- rows: a:11-20(+) at 1..10, gap 11..15, b:1-10(−) at 16..25, gap 26..30, c:101-120(+) at 31..50 -/
+def src5 : List Row := [fr 1 "a" 11 20 1, gp 5, fr 2 "b" 1 10 (-1), gp 5, fr 3 "c" 101 120 1]
+def o5 : OverlapResult := { bait := mkBait 4 33, start := 1, stop := 50, rows := src5, name := "matches".toList }
+
+example : (ids src5).Nodup := by decide
+theorem lookup5 : findOverlaps src5 (mkBait 4 33) = .ok (some o5) := by decide +kernel
+example : Inv src5 o5 := inv_lookup (by decide) lookup5
+
+/-- cut both terminal fragments to the bait: a:11-20 → a:14-20, c:101-120 → c:101-103; span 4..33 -/
+def o5a : OverlapResult :=
+  { o5 with start := 4, stop := 33,
+            rows := [.frag { oid := 10, name := "a".toList, start := 14, stop := 20, strand := 1, tags := cutTags },
+                     gp 5, fr 2 "b" 1 10 (-1), gp 5,
+                     .frag { oid := 11, name := "c".toList, start := 101, stop := 103, strand := 1, tags := cutTags }] }
+theorem run5a : runOps o5 [(.trimFirst false false, 10), (.trimLast false false, 11)] = .ok o5a := by decide
+example : Inv src5 o5a ∧ o5a.stop - o5a.start + 1 = rowsLength o5a.rows ∧ NoTerminalGap o5a.rows :=
+  inv_lookup_ops _ (by decide) lookup5 (by decide) (by decide) run5a
+example : Inv src5 o5a := inv_ops _ (inv_lookup (by decide) lookup5) (by decide) (by decide) run5a
+
+/-- `trim_large_overhangs(5)` on the lookup for bait 9..33 discards at both ends (and the gaps next to them) -/
+def o5b0 : OverlapResult := { o5 with bait := mkBait 9 33 }
+def o5b : OverlapResult := { o5b0 with start := 16, stop := 25, rows := [fr 2 "b" 1 10 (-1)] }
+theorem lookup5b : findOverlaps src5 (mkBait 9 33) = .ok (some o5b0) := by decide +kernel
+theorem run5b : runOps o5b0 [(.trimLarge 5, 20)] = .ok o5b := by decide
+example : Inv src5 o5b := inv_ops _ (inv_lookup (by decide) lookup5b) (by decide) (by decide) run5b
+example : applyOp o5b0 (.trimLarge 5) 0 = .ok o5b := by decide
+example : Inv src5 o5b := inv_step (inv_lookup (by decide) lookup5b) (by decide) (show applyOp o5b0 (.trimLarge 5) 0 = .ok o5b by decide)
+
+/-- a minus-strand first row is cut at its `end`: b:1-10(−) → b:1-8(−); then the last row is discarded -/
+def o5c0 : OverlapResult :=
+  { o5 with bait := mkBait 18 50, start := 16, rows := [fr 2 "b" 1 10 (-1), gp 5, fr 3 "c" 101 120 1] }
+def o5c : OverlapResult :=
+  { o5c0 with start := 18, stop := 25,
+              rows := [.frag { oid := 30, name := "b".toList, start := 1, stop := 8, strand := -1, tags := cutTags }] }
+theorem lookup5c : findOverlaps src5 (mkBait 18 50) = .ok (some o5c0) := by decide +kernel
+theorem run5c : runOps o5c0 [(.trimFirst false false, 30), (.discardEnd, 31)] = .ok o5c := by decide
+example : Inv src5 o5c := inv_ops _ (inv_lookup (by decide) lookup5c) (by decide) (by decide) run5c
+
+/-- discarding everything, then once more: IndexError -/
+example : runOps o5 [(.discardStart, 40), (.discardEnd, 41), (.discardStart, 42)] =
+    .ok { o5 with start := 26, stop := 25, rows := [] } := by decide
+example : runOps o5 [(.discardStart, 40), (.discardEnd, 41), (.discardStart, 42), (.discardEnd, 43)] = .error .index := by
+  decide
+/-- trimming a fragment that is not terminal: ValueError -/
+example : trimFragment o5 { oid := 2, name := "b".toList, start := 1, stop := 10, strand := -1 } false false 50 = .error .value :=
+  trimFragment_reject false false 50 (r0 := fr 1 "a" 11 20 1) (r1 := fr 3 "c" 101 120 1)
+    (t := [gp 5, fr 2 "b" 1 10 (-1), gp 5, fr 3 "c" 101 120 1]) (t' := [fr 1 "a" 11 20 1, gp 5, fr 2 "b" 1 10 (-1), gp 5])
+    rfl rfl (by decide) (by decide)
+/-- a trim that would leave nothing of the fragment (the bait starts beyond the first row 1..10): rejected with
+    ValueError by `Fragment.__init__` (`start > end`) -/
+example : applyOp { o5 with bait := mkBait 12 33 } (.trimFirst false false) 60 = .error .value := by decide
+
+/-- derived figures on the example -/
+example : startRowBaitOverlap o5 = .ok 7 := by decide
+example : endRowBaitOverlap o5 = .ok 3 := by decide
+example : overhangIfStartRemoved o5 = .ok (-12) := by decide
+example : overhangIfEndRemoved o5 = .ok (-8) := by decide
+example : ∃ o', discardStart o5 = .ok o' ∧ (-12 : Int) = o'.startOverhang := overhangIfStartRemoved_eq (by decide)
+example : ∃ o', discardEnd o5 = .ok o' ∧ (-8 : Int) = o'.endOverhang := overhangIfEndRemoved_eq (by decide)
+
+/-! ## Why distinct objects are required: the same Fragment object as first and last row -/
+
+/-- F = a:1-10(+) (object 1) is both row 0 and row 2. -/
+def srcDup : List Row := [fr 1 "a" 1 10 1, fr 2 "b" 1 5 1, fr 1 "a" 1 10 1]
+def baitDup : Fragment := { name := "s".toList, start := 3, stop := 23, strand := 1 }
+def oDup : OverlapResult := { bait := baitDup, start := 1, stop := 25, rows := srcDup, name := "matches".toList }
+/-- after `trim_fragment(rows[0])`: `start` moved to 3 but row 0 is still a:1-10, and the LAST row was cut at both ends -/
+def oDup' : OverlapResult :=
+  { oDup with start := 3, stop := 23,
+              rows := [fr 1 "a" 1 10 1, fr 2 "b" 1 5 1,
+                       .frag { oid := 9, name := "a".toList, start := 3, stop := 8, strand := 1, tags := [Gen.cutTag] }] }
+theorem lookupDup : findOverlaps srcDup baitDup = .ok (some oDup) := by decide +kernel
+theorem stepDup : applyOp oDup (.trimFirst false false) 9 = .ok oDup' := by decide
+/-- the span arithmetic (1) survives, the content (3)/(4) does not -/
+theorem dup_object_breaks_content :
+    oDup'.stop - oDup'.start + 1 = rowsLength oDup'.rows ∧ ¬ Content srcDup oDup' := by
+  refine ⟨by decide, fun h => ?_⟩
+  obtain ⟨i, n, dl, dr, hn, _, hb, _, _, _, ⟨r, s, hr0, hs0, hsh⟩, _, hst, _⟩ := content_index_form h (by decide)
+  have hn3 : n = 3 := by rw [← hn]; rfl
+  subst hn3
+  have hi : i = 0 := by simp [srcDup] at hb; omega
+  subst hi
+  have hr : r = fr 1 "a" 1 10 1 := by simpa [oDup'] using hr0.symm
+  have hs : s = fr 1 "a" 1 10 1 := by simpa [srcDup] using hs0.symm
+  subst hr hs
+  have hdl : dl = 2 := by
+    have : oDup'.start = 3 := rfl
+    rw [this] at hst; simp [rowsLength_nil] at hst; omega
+  obtain ⟨f, g, hf, hg, _, _, hc⟩ := hsh
+  simp only [fr, Row.frag.injEq] at hf hg
+  subst hf hg
+  simp at hc
+  omega
 end AgpTpf.C18
